@@ -22,6 +22,9 @@ pub enum ReadStep {
     /// Fail with a non-retryable error (`ErrorKind::ConnectionReset`): the call that gets it
     /// fails if nothing was delivered yet, and returns what it has otherwise.
     Error,
+    /// `Ok(0)` although bytes are left (a file being appended to: `Read` documents that end of
+    /// file need not be permanent).  Only the stream readers of the transient-eof groups use it.
+    Eof,
 }
 
 /// A reader over a byte slice that follows a script of short reads and
@@ -132,6 +135,9 @@ pub enum Nudge {
     Ensure(u32),
     /// Use up the current chunk until this many bytes are left.
     LeaveRemaining(u16),
+    /// Replace the arena by a fresh one and drop the old one (what `take_arena` + drop does):
+    /// everything already produced must stay alive through its anchors alone.
+    Replace,
 }
 
 /// Uses up the arena's current chunk until `leave` bytes remain.
@@ -154,6 +160,10 @@ pub fn apply_nudge(arena: &mut owning_iovec::ByteArena, nudge: Nudge) {
         Nudge::Flush => arena.flush_cache(),
         Nudge::Ensure(n) => arena.ensure_capacity((n as usize).min(2 << 20)),
         Nudge::LeaveRemaining(r) => leave_remaining(arena, r as usize),
+        Nudge::Replace => {
+            let old = std::mem::take(arena);
+            drop(old);
+        }
     }
 }
 
@@ -163,6 +173,7 @@ pub fn nudge() -> impl Strategy<Value = Nudge> {
         2 => Just(Nudge::Flush),
         1 => prop_oneof![1u32..300, 4000u32..9000, 60_000u32..70_000].prop_map(Nudge::Ensure),
         3 => prop_oneof![0u16..4, 60u16..70, 250u16..260, 0u16..300].prop_map(Nudge::LeaveRemaining),
+        1 => Just(Nudge::Replace),
     ]
 }
 
